@@ -65,7 +65,7 @@ def strip_generics(s):
     if '::<' not in s: return s
     out = []; i = 0; n = len(s)
     while i < n:
-        if s.startswith('::<', i):
+        if s.startswith('::<', i) and not s.startswith('::<impl ', i):
             j = i + 2; d = 0
             while j < n:
                 if s[j] == '<': d += 1
@@ -229,7 +229,7 @@ def index_mir(text):
                 name = h[:m.start()]
                 f = Fn(name, body)
             else:
-                m = re.match(r'(?:const|static(?: mut)?) (.*?): (.*) = \{$', ln)
+                m = re.match(r'(?:const|static(?: mut)?) ((?:.*?<impl at [^>]*>)?.*?): (.*) = \{$', ln)
                 if not m: i = j + 1; continue
                 f = Fn(m.group(1), body); f.kind = 'const'; f.ret = m.group(2)
             k = f.name
